@@ -3,9 +3,9 @@
 package props
 
 import (
-	"math"
 	"encoding/json"
 	"fmt"
+	"math"
 	"os"
 	"path/filepath"
 	"reflect"
